@@ -138,3 +138,25 @@ Theorem C01_solver_model_loses_no_clause : forall U P, WF U -> forall A a_ge a_c
      exists c, nth_error (s_db st) (N.to_nat id) = Some c /\ falsified (ps_trail (s_ps st)) (cl_lits c) = false) /\
   (forall x, In x (s_asserts st ++ s_units st) -> plit_true (s_ps st) (fst x) = true).
 Proof. exact solve_sat_loses_no_clause. Qed.
+
+(* ---- and the exempt set is empty (Cdcl/SolverRegistered.v): a candidate is installed, and a helper
+   variable of an at-most-one encoding is assigned, only after the encoder has registered it (RInv: every
+   literal on the trail and in the database is on a registered candidate / an existing helper bit, through
+   decisions, propagation, learnt clauses and lazily added clauses); so a new at-most-one clause never has
+   both literals false, a clause that starts being watched with both watched literals false has been
+   reported as a conflict, and for a problem without soft requirements every such report ends in a restart
+   before the model can answer with a solution ---- *)
+From Resolvo Require Import Cdcl.SolverRegistered.
+
+Theorem C01_solver_model_born_empty : forall U P, WF U -> forall A a_ge a_conflict fuel efuel (a0 : A) order sol st,
+  solve U P a_ge a_conflict fuel efuel a0 order = (OSat sol, st) -> pr_soft P = [] -> s_born st = [].
+Proof. exact solve_sat_born_empty. Qed.
+
+(* with no exemption left: the model's solution of a problem without soft requirements is read from a
+   trail that falsifies no watched clause and makes every registered assertion true *)
+Theorem C01_solver_model_no_clause_lost : forall U P, WF U -> forall A a_ge a_conflict fuel efuel (a0 : A) order sol st,
+  solve U P a_ge a_conflict fuel efuel a0 order = (OSat sol, st) -> pr_soft P = [] ->
+  (forall id w, wget (ps_watch (s_ps st)) id = Some w ->
+     exists c, nth_error (s_db st) (N.to_nat id) = Some c /\ falsified (ps_trail (s_ps st)) (cl_lits c) = false) /\
+  (forall x, In x (s_asserts st ++ s_units st) -> plit_true (s_ps st) (fst x) = true).
+Proof. exact solve_sat_no_clause_lost. Qed.
